@@ -489,3 +489,68 @@ def cache_session(args):
     finally:
         if not args.get("keep"):
             shutil.rmtree(rundir, ignore_errors=True)
+
+
+def reuse(args):
+    """C15 pipeline level: run with --keep_tmp, then a second invocation with --read_assignments <saved prefix>;
+    returns both digests (GTF title line dropped: the experiment name necessarily differs)"""
+    import re
+    t0 = time.time()
+    rundir = new_rundir("u")
+    try:
+        indir = os.path.join(rundir, "in")
+        o1 = dict(args.get("opts") or {})
+        o1["keep_tmp"] = True
+        truth, paths = build_inputs(args.get("spec"), o1, indir)
+        r1 = run_once(rundir, truth, paths, o1, sched=args.get("sched"), bufsize=args.get("bufsize", 8192), logname="first.log")
+        chroms = [c for c, _ in truth["chroms"]]
+
+        def norm(outdir):
+            files, _ = outputs.collect(outdir, chroms)
+            out = {}
+            for k, v in files.items():
+                v = b"\n".join(l for l in v.split(b"\n") if not re.match(rb"^# \S+ IsoQuant generated GTF$", l))
+                out[common_file_class(k)] = hashlib.sha256(v).hexdigest()
+            return out
+        d1 = norm(r1["outdir"])
+        res = {"first": {"exit": r1["exit"], "digests": d1, "events": r1["events"]}}
+        if r1["exit"] != 0:
+            res["first"]["log_tail"] = _log_tail(rundir, "first.log")
+            return res
+        out2 = os.path.join(rundir, "out2")
+        o2 = dict(args.get("opts2") or args.get("opts") or {})
+        argv, _ = make_argv(truth, paths, dict(o2, keep_tmp=False), out2, indir)
+        # strip the alignment inputs, add the saved assignments
+        for flag in ("--bam", "--yaml", "--bam_list"):
+            if flag in argv:
+                i = argv.index(flag)
+                j = i + 1
+                while j < len(argv) and not argv[j].startswith("-"):
+                    j += 1
+                del argv[i:j]
+        argv += ["--read_assignments", os.path.join(r1["outdir"], r1["prefixes"][0], "aux", r1["prefixes"][0] + ".save")]
+        r2 = run_once(rundir, truth, paths, o2, sched=args.get("sched2") or args.get("sched"), bufsize=args.get("bufsize", 8192),
+                      argv_override=argv, logname="stdout.log", outdir=out2)
+        res["second"] = {"exit": r2["exit"], "digests": norm(out2), "events": r2["events"], "trace_sha": simrun.trace_digest(r2["trace"]),
+                         "placement": simrun.placement_key(r2["maps"])}
+        if r2["exit"] != 0:
+            res["second"]["log_tail"] = _log_tail(rundir)
+            try:
+                with open(os.path.join(rundir, "stdout.log"), "r", errors="replace") as f:
+                    res["second"]["failure_site"] = failure_site(f.read())
+            except OSError:
+                pass
+        res["events"] = r1["events"] + r2["events"]
+        res["wall"] = time.time() - t0
+        return res
+    finally:
+        if not args.get("keep"):
+            shutil.rmtree(rundir, ignore_errors=True)
+
+
+def common_file_class(name):
+    base = name.split("/")[-1]
+    parts = base.split(".", 1)
+    if len(parts) == 2 and not base.startswith("combined_"):
+        return "<prefix>." + parts[1]
+    return base
